@@ -92,6 +92,14 @@ def gen_cases(chk):
         for k in ks:
             for pol in ("seq", "par", "unseq", "par_unseq", "stack"):
                 cases.append(("bulk", "bulk_indices %d %s" % (n, k), "bulk_indices %d %s %s" % (n, k, pol), (n, k, pol)))
+    # indexed_for (a direct loop, not built on bulk_schedule): every index once, in order, then the predecessor's value
+    # (42 + sum of the indices); the model is bulk_indices without a stop; a throwing function ends it with set_error
+    for n in [0, 1, 2, 15, 16, 17, 33, 100] + [rng.randrange(0, 300) for _ in range(4)]:
+        for pol in ("seq", "par"):
+            cases.append(("ifor", "bulk_indices %d none" % n, "indexed_for %d %s -1" % (n, pol), (n, pol, -1)))
+            for t in sorted({0, n // 2, n - 1}):
+                if 0 <= t < n:
+                    cases.append(("ifor", "bulk_indices %d none" % n, "indexed_for %d %s %d" % (n, pol, t), (n, pol, t)))
     # execution policies: every stack of up to three bulk_transforms over every kind of bottom receiver
     pols = ("seq", "unseq", "par", "par_unseq")
     import itertools
@@ -131,6 +139,21 @@ def run(chk, replay=None):
         nontrivial = ((kind == "policy" and len(meta) > 1) or (kind not in ("bulk", "policy") and len(meta[1]) > 0)
                       or (kind == "bulk" and meta[0] > 0 and meta[1] != "none"))
         chk.count(il, nontrivial)
+        if kind == "ifor":
+            n, pol, t = meta
+            if t < 0:     # the model's index list, plus the accumulated value
+                agree = (io == "%s acc=%d" % (mo, 42 + n * (n - 1) // 2))
+            else:         # documented: func called for 0..t, then set_error; nothing after the throw
+                agree = (io == "error [%s] acc=-1" % ",".join(map(str, range(t + 1))))
+            if agree:
+                chk.cov["traces_validated_against_impl"] += 1
+            else:
+                chk.cov["disagreements_checked"] += 1
+                rp = chk.replay_file("ifor_%d_%s_%d" % meta, {"kind": kind, "model_line": ml, "impl_line": il, "meta": meta, "model": mo, "impl": io,
+                                     "monitor": "indexed_for must call the function for every index of the range exactly once, in order, and pass the value on",
+                                     "replay": "echo '%s' | <cache>/k3_c17_plain17_*" % il})
+                chk.violation("indexed_for/%s" % pol, rp, text="%s: impl=%s model=%s" % (il, io[:100], mo[:80]))
+            continue
         if kind == "find_pool":   # compare result only; monitor the visited set
             agree = (io.split(" ")[0] == mo.split(" ")[0])
             ok, why = monitor_find(meta[0], meta[1], io)
